@@ -1,4 +1,5 @@
 import NixModel.Pure.UpgradeRead
+import NixModel.Pure.UpgradeOpen
 import NixModel.Lemmas.C18Stale
 
 /-! the version-switched reader of property values before and after the upgrade -/
@@ -29,5 +30,20 @@ theorem upgrade_version {lib : List Nat} {r : Nat} {f : File} (hold : upToDate l
     cases e with
     | some e => rw [hp] at hok; simp at hok
     | none => rfl
+
+/-- `can_write` / `_check_header` over the constants regenerated from nixio/file.py is the model's `openRW` -/
+theorem shape_open (lib : List Nat) (f : File) : Shape.openRWG lib f = openRW lib f := by
+  unfold Shape.openRWG openRW
+  have h1 : Nix.Gen.Format.versionLen = 3 := rfl
+  have h2 : Nix.Gen.Format.canWriteCmp = .eq := rfl
+  have h3 : Nix.Gen.Format.idThresholdCmp = .ge := rfl
+  have h4 : Nix.Gen.Format.idThreshold.map Int.toNat = [1, 2, 0] := by decide
+  rw [h1, h2, h3, h4]
+  simp only [Shape.cmpVersions]
+  by_cases hl : f.version.length = 3
+  · by_cases he : lib = f.version
+    · simp [hl, he]
+    · simp [hl, he]
+  · simp [hl]
 
 end Nix.Upgrade.Lemmas
